@@ -10,7 +10,7 @@ from . import c18 as c18mod
 
 MANIFEST = dict(
     technique="Lean 4 proof (Python slice semantics, ledger algebra, induction over operation lists) + differential correspondence of z[sl], fast_len, time_shift(crop=True), snippet on all six signal classes against the compiled Lean model",
-    level_text="for the exact-rational ledger model: every slice (any bounds, step>0), every crop caller and EVERY finite pipeline of them keeps sample k at the time of its source position (theorems C01_slice, C01_pipeline, C01_pipeline_in_range, C01_no_start, C01_contains_*); the real public API is compared with the model on generated pipelines (len, provenance, rate, start/stop stamps, contains)",
+    level_text="the stamp expressions of _time_slice/dt/time_length/stop_time/snippet, translated symbolically from the source on every run, are the ledger arithmetic (C01_source_formulas); for the exact-rational ledger model: every slice (any bounds, step>0), every crop caller and EVERY finite pipeline of them keeps sample k at the time of its source position (theorems C01_slice, C01_pipeline, C01_pipeline_in_range, C01_no_start, C01_contains_*); the real public API is compared with the model on generated pipelines (len, provenance, rate, start/stop stamps, contains)",
     level_note="Trusted: Lean kernel (+3 standard axioms), hand-written model PbModel/Crop.lean (tied by correspondence only), astropy Time/Quantity float arithmetic (validated within (k+1)*(50ps + 4e-16*|offset|)), provenance decoding of index-encoded data",
 )
 
@@ -31,7 +31,7 @@ class Prop(PropBase):
         "C01_slice", "C01_slice_complete", "C01_slice_rejects", "C01_pipeline",
         "C01_pipeline_in_range", "C01_no_start", "C01_crop_interval", "C01_shift_crop",
         "C01_contains_sound", "C01_contains_complete", "C01_contains_no_start",
-        "C01_contains_empty", "C01_error_accum")]
+        "C01_contains_empty", "C01_error_accum", "C01_source_formulas")]
     trusted_base = [
         "PbModel/Crop.lean: hand transliteration of Signal._time_slice/__getitem__/like, fast_len, "
         "time_shift crop bounds, snippet; tied by the correspondence run",
